@@ -122,8 +122,8 @@ def absent_violation(case, r):
         # a failing item still opens its group (group_by sees it before the stage that raises), so the order in which the groups
         # complete can differ from the run without it: the outputs are compared as multisets there
         a, b = sorted(a, key=muxprop.json.dumps), sorted(b, key=muxprop.json.dumps)
-    if not case['term']:
-        return None
+    if not any(isinstance(a_, list) and a_[:1] == ['raise_if_mod'] for st in muxgen.walk(case['term']) for a_ in st[1:]):
+        return None         # (a shrunk case that lost its failing stage is not judged by this rule)
     if muxprop.strict_ne(a, b):
         return ('%s over %s emits %s; over the same items without the failing ones (%s) it emits %s — an ignored mux error must leave '
                 'the segmentation of the key as if the item were absent' % (muxprop.json.dumps(case['term'])[:200], case['items'], str(a)[:250], rest, str(b)[:250]))
@@ -131,9 +131,9 @@ def absent_violation(case, r):
 
 
 def oracle(case, r):
-    if case.get('absent'):
-        return absent_violation(case, r)
     v = muxprop.prelude_violation(case, r)
     if v or case.get('share'):
         return v        # the shared-operator variant wraps the pipeline in a tee_map: judged against separately built operators only
+    if case.get('absent'):
+        return absent_violation(case, r)
     return _oracle(case, r)
